@@ -1791,7 +1791,7 @@ impl Server {
                 "HSET" | "HDEL" | "HINCRBY" |
                 "ZADD" | "ZREM" | "ZINCRBY" | "ZPOPMIN" | "ZPOPMAX" |
                 "XADD" | "XTRIM" | "XDEL" |  // Stream write commands
-                "XGROUP" | "XACK" | "XCLAIM" |  // Consumer group write commands
+                "XGROUP" | "XACK" | "XCLAIM" | "XREADGROUP" |  // Consumer group write commands (a group read delivers: pending entries, last-delivered id, consumers)
                 "MSET" | "APPEND" | "SETRANGE" | "RENAME" | "RENAMENX" | "PERSIST" | "EVAL" | "EVALSHA" |
                 "GETSET" | "HMSET" | "PEXPIRE"
             )
